@@ -251,6 +251,9 @@ fn apply_update_message(
     trace!("applying update message with `{flags:?}` for {message_tick:?}");
     world.resource_mut::<ServerUpdateTick>().0 = message_tick;
 
+    // Mappings are applied after despawns: a despawn from the same message
+    // is for the entity that was known to this client before the mapping.
+    let mut mappings = Vec::new();
     let last_flag = flags.last();
     for (_, flag) in flags.iter_names() {
         let array_kind = if flag != last_flag {
@@ -259,10 +262,20 @@ fn apply_update_message(
             ArrayKind::Dynamic
         };
 
+        if !matches!(
+            flag,
+            UpdateMessageFlags::MAPPINGS | UpdateMessageFlags::DESPAWNS
+        ) {
+            apply_entity_mappings(world, params, &mut mappings);
+        }
+
         match flag {
             UpdateMessageFlags::MAPPINGS => {
                 let len = apply_array(array_kind, message, |message| {
-                    apply_entity_mapping(world, params, message)
+                    let server_entity = entity_serde::deserialize_entity(message)?;
+                    let client_entity = entity_serde::deserialize_entity(message)?;
+                    mappings.push((server_entity, client_entity));
+                    Ok(())
                 })
                 .map_err(|e| format!("unable to apply mappings: {e}"))?;
                 if let Some(stats) = &mut params.stats {
@@ -300,6 +313,7 @@ fn apply_update_message(
             _ => unreachable!("iteration should yield only named flags"),
         }
     }
+    apply_entity_mappings(world, params, &mut mappings);
 
     Ok(())
 }
@@ -389,26 +403,23 @@ fn apply_mutate_messages(
 }
 
 /// Deserializes and applies server mapping from client's pre-spawned entities.
-fn apply_entity_mapping(
+fn apply_entity_mappings(
     world: &mut World,
     params: &mut ReceiveParams,
-    message: &mut Bytes,
-) -> Result<()> {
-    let server_entity = entity_serde::deserialize_entity(message)?;
-    let client_entity = entity_serde::deserialize_entity(message)?;
-
-    if let Ok(mut entity) = world.get_entity_mut(client_entity) {
-        debug!("applying mapping from {server_entity:?} to {client_entity:?}");
-        entity.insert(Replicated);
-        params.entity_map.insert(server_entity, client_entity);
-    } else {
-        // Entity could be despawned on client already.
-        debug!(
-            "received mapping from {server_entity:?} to {client_entity:?}, but the entity doesn't exists"
-        );
+    mappings: &mut Vec<(Entity, Entity)>,
+) {
+    for (server_entity, client_entity) in mappings.drain(..) {
+        if let Ok(mut entity) = world.get_entity_mut(client_entity) {
+            debug!("applying mapping from {server_entity:?} to {client_entity:?}");
+            entity.insert(Replicated);
+            params.entity_map.insert(server_entity, client_entity);
+        } else {
+            // Entity could be despawned on client already.
+            debug!(
+                "received mapping from {server_entity:?} to {client_entity:?}, but the entity doesn't exists"
+            );
+        }
     }
-
-    Ok(())
 }
 
 /// Deserializes and applies entity despawn from update message.
